@@ -23,6 +23,13 @@ def custom_table(rng, n=None):
     for mach in machs:
         cd = min(1.0, max(0.05, cd + rng.uniform(-0.08, 0.08)))
         out.append([mach, round(cd, 5)])
+    if rng.random() < 0.06 and len(out) >= 4:
+        # seam rows of a table stitched from two sources: two strictly ascending Mach numbers a few ulps apart with the same Cd
+        i = rng.randrange(1, len(out) - 1)
+        m = out[i][0]
+        for _ in range(rng.choice([1, 3, 40])):
+            m = math.nextafter(m, math.inf)
+        out.insert(i + 1, [m, out[i][1]])     # (a different Cd there would make every interpolant through the pair ill-conditioned beyond any tolerance)
     return out
 
 
@@ -89,7 +96,8 @@ def shot(rng, *, flat=False, twist=True, custom=0.15, look=True, cant=True, vacu
     s["zero_deg"] = rng.choice([0.0, r(rng, -0.2, 1.0, 4)])
     s["look_deg"] = rng.choice([0.0, 0.0, r(rng, -45, 45, 3)]) if look else 0.0
     s["rel_deg"] = 0.0 if flat else rng.choice([0.0, r(rng, -2, 10, 3), r(rng, 0, 40, 3)])
-    s["cant_deg"] = rng.choice([0.0, 0.0, r(rng, -90, 90, 2)]) if cant else 0.0
+    # (a rifle rolled past the horizontal - 120, -135, 180 deg - is a cant angle like any other)
+    s["cant_deg"] = rng.choice([0.0, 0.0, 0.0, r(rng, -90, 90, 2), r(rng, -90, 90, 2), rng.choice([-1, 1]) * r(rng, 90, 180, 2)]) if cant else 0.0
     s["atmo"] = atmo(rng, vacuum_ok)
     s["winds"] = winds(rng, wind_n, wind_max, range_ft)
     if rng.random() < 0.2:
